@@ -18,7 +18,8 @@ command, stray start syllables at the end) must parse back to the same list; (b)
 the command list with the right index and line:column; non-trivial = >= 3 commands, >= 2 distinct junk places used, an area with both operators \
 (for (b): >= 2 commands with an area or multi-syllable head); distinct = distinct text";
 
-const GEN_JUNK: [&str; 22] = ["", " ", "\n", "  ", "\t", "가", "나다", "abc", "你好", "😀", "엉", "앙", "읏", "‥", "·", "\u{3000}", "#", "\r\n", "앗읍윽", " \n ", "ㅎ", "1_2"];
+// (the last five entries are code points adjacent to hearts, dots and `?`/`!`: not significant themselves)
+const GEN_JUNK: [&str; 27] = ["", " ", "\n", "  ", "\t", "가", "나다", "abc", "你好", "😀", "엉", "앙", "읏", "‥", "·", "\u{3000}", "#", "\r\n", "앗읍윽", " \n ", "ㅎ", "1_2", "💞", "💔", "♢♠", "❣", ">@\""];
 const HEAD_JUNK: [&str; 12] = ["", "", " ", "\n", ".", "…", "♥", "?", "!", "abc", "😀", "ㅎ"];
 const AREA_EXTRA: [&str; 5] = [".", "…", "..", " . ", "⋮"];
 const PRE_EXTRA: [&str; 8] = ["?", "♥", "..", "!", "💖?", "…", "♡!♡", "엉?"];
